@@ -379,8 +379,8 @@ class DomainDefinition:
                                    f'NumberOfComponents=\"{3 if pad_to_vector else ncomponents}\" '
                                    f'format=\"binary\">\n'.encode())
                         enc_data = base64.b64encode(vec_to_write)  # Encode the data
-                        # Get the length of encoded data block
-                        enc_len = base64.b64encode(struct.pack(len_enc, len(enc_data)))
+                        # Length header: byte count of the raw (un-encoded) data block
+                        enc_len = base64.b64encode(struct.pack(len_enc, vec_to_write.nbytes))
                         file.write(enc_len)  # Write length
                         file.write(enc_data)  # Write data
                         file.write(b'\n</DataArray>\n')
@@ -410,8 +410,8 @@ class DomainDefinition:
                                    f'NumberOfComponents=\"{ncomponents}\" '
                                    f'format=\"binary\">\n'.encode())
                         enc_data = base64.b64encode(vec_to_write)  # Encode the data
-                        # Get the length of encoded data block
-                        enc_len = base64.b64encode(struct.pack(len_enc, len(enc_data)))
+                        # Length header: byte count of the raw (un-encoded) data block
+                        enc_len = base64.b64encode(struct.pack(len_enc, vec_to_write.nbytes))
                         file.write(enc_len)  # Write length
                         file.write(enc_data)  # Write data
                         file.write(b'\n</DataArray>\n')
